@@ -21,7 +21,7 @@ CLAIMED = {
             TB, "Lean 4 theorems over the LR machine + differential correspondence of action logs", "§7 C03"),
     "C04": ("proof",
             "Decision logic of resolveConflicts proved for all action cells (only one-rule S/R pairs with explicit precedences are settled, exactly one action kept, verdict = some cell keeps more than one action); accepted tables are validated (no hidden conflict, no missing lookahead); verdict and automaton are compared with an independent LALR(1) reference on random and classic grammars.",
-            TB + " Lookahead minimality (no invented conflict) rests on the reference comparison (a test), stated in the evidence.",
+            TB + " Exactness of the item sets (⊆: justify_sound / items_exact / tables_are_lalr, no_invented_conflict) is proved for accepted grammars and validated per emitted table (lr.justify); for REFUSED grammars the verdict rests on the comparison with the independent reference (a test).",
             "Lean 4 theorems on the resolution logic + verified validator + reference LALR(1) construction", "§7 C04"),
     "C05": ("proof",
             "op_machine_climb: a shift-reduce machine whose decisions follow the documented relation builds the precedence-climbing tree for all operator sequences; resolve_documented_partial: resolveConflicts yields that relation except for @right (known finding K1, negation proved on the calc cell). Compiled expression parsers over random operator tables are compared with precedence climbing; deviations are accepted only when explained by K1.",
@@ -38,8 +38,8 @@ CLAIMED = {
             "bisimNG_sound: when Lex.bisimNG accepts (rules, emitted table) the table run equals the shortest-match spec for rules containing *?/+? on every string; ng_shape_star/plus: for prefix · body*? · terminator the token ends at the first occurrence of the terminator. Runs on every table emitted for random specs of the stated shape; compiled lexers vs model and reference lexer. The leak of the non-greedy mark onto a greedy rule's accepting state is known finding K2 (the validator names it).",
             TB + " Partial: K2.", "Lean 4 proof-carrying validation (non-greedy bisimulation checker) + correspondence", "§7 C08"),
     "C09": ("proof",
-            "Over the model of parse/_recover for arbitrary tables: recover_result, recover_progress, recoveries_bounded, recover_terminates, no_silent_accept_partial, error_tracked, error_delivered_partial; tables_decide/parse_no_panic/tables_terminate for validated tables on error-free runs. The model is compared with compiled generated parsers on all token strings up to a length including lexer ERROR tokens, under a step budget (a hang is an observation).",
-            TB + " Partial: soundness of runs with recovery and the correct-prefix property of the first Error are not yet theorems (stated _partial).",
+            "Over the model of parse/_recover: parse_no_panic, parse_terminates, parse_total (all inputs incl. lexer ERROR tokens, any number of recoveries), accepted_edit_is_sentence, no_silent_accept, error_delivered, first_error_token (the first Error carries the first token at which the input stops being a prefix of a sentence), recoveries_bounded for validated tables; recover_result/recover_progress for arbitrary tables. The model is compared with compiled generated parsers on all token strings up to a length including lexer ERROR tokens, under a step budget (a hang is an observation).",
+            TB + " first_error_token (correct-prefix) assumes the input holds no lexer ERROR token; premises check/justify/productive/termB/recoveryOK are evaluated on every emitted table.",
             "Lean 4 theorems over the model of the generated parse/_recover + correspondence with compiled parsers", "§7 C09"),
     "C10": ("proof",
             "Table codec theorems for all row lists (roundtrip, find_correct, shared_only_if_equal, indices_in_range, rowKey_injective), lexer row codec, decode_wf/table_faithful for mode tables, LR.check for parser tables; ties: table family vs newTable/AddRow/Array, validators on every emitted table.",
